@@ -625,3 +625,8 @@ _add(
     "C17",
     m("is-valid-ignores-registered-version", T, "        if _task is None or _task.version != self.version:\n            return False\n        return self.hash == self._calc_hash()", "        return self.hash == self._calc_hash()", "C17.7"),
 )
+_add(
+    "C10",
+    m("batch-monitor-stops-whole-executor", "redun/executors/aws_batch.py", "        self.arrayer.stop()\n        self.is_running = False\n\n    def _can_override_failed", "        self.stop()\n\n    def _can_override_failed", "C10.8"),
+    m("arrayer-start-ignores-exit-flag", "redun/job_array.py", "            if not self._exit_flag.is_set():\n                return\n", "            return\n", "C10.9"),
+)
